@@ -20,7 +20,9 @@
  *   J m mask tld rc     -> ret errcode                       (eav_is_email over a stub callback returning rc)
  *   A op op ...         -> one token per op                  (façade history, see run_history)
  */
+#ifndef _GNU_SOURCE
 #define _GNU_SOURCE
+#endif
 #include <stdio.h>
 #include <string.h>
 #include <stdlib.h>
@@ -29,6 +31,23 @@
 #include <unistd.h>
 #include <idn2.h>
 #include <eav.h>
+
+/* the three back ends differ in the IDN entry points; everything else of this driver is common */
+#if defined HAVE_IDNKIT
+static idn_resconf_t g_ctx;
+#define CALL_6531(s, n, t) is_6531_email (g_ctx, IDN_ENCODE_REGIST, (s), (n), (t))
+#define CALL_U8DOM(ir, s, e, t) is_utf8_domain (g_ctx, IDN_ENCODE_REGIST, (ir), (s), (e), (t))
+#define BACKEND_STRERROR(c) idn_result_tostring (c)
+#elif defined HAVE_LIBIDN
+#include <idna.h>
+#define CALL_6531(s, n, t) is_6531_email ((s), (n), (t))
+#define CALL_U8DOM(ir, s, e, t) is_utf8_domain ((ir), (s), (e), (t))
+#define BACKEND_STRERROR(c) idna_strerror (c)
+#else
+#define CALL_6531(s, n, t) is_6531_email ((s), (n), (t))
+#define CALL_U8DOM(ir, s, e, t) is_utf8_domain ((ir), (s), (e), (t))
+#define BACKEND_STRERROR(c) idn2_strerror (c)
+#endif
 
 /* ---- interposers ---- */
 static long n_alloc, n_free;
@@ -85,13 +104,13 @@ static eav_result_t *call_email (int m, const char *s, size_t n, int tld)
     case 0: return is_822_email (s, n, tld);
     case 1: return is_5321_email (s, n, tld);
     case 2: return is_5322_email (s, n, tld);
-    default: return is_6531_email (s, n, tld);
+    default: return CALL_6531 (s, n, tld);
     }
 }
 
 static void print_result (const eav_result_t *r)
 {
-    printf ("%d %d %d%d%d ", r->rc, r->idn_rc, r->is_ipv4, r->is_ipv6, r->is_domain);
+    printf ("%d %d %d%d%d ", r->rc, (int) r->idn_rc, r->is_ipv4, r->is_ipv6, r->is_domain);
 #ifdef EAV_EXTRA
     puthex (r->lpart); putchar (' '); puthex (r->domain);
 #else
@@ -118,7 +137,13 @@ static int compose (int m, const char *s, size_t n, int tld, int *f4, int *f6, i
     if (rc != 0) return rc;
     const char *d = at + 1;
     if (*d != '[') {
-        if (m == 3) { rc = is_utf8_domain (idn, d, end, tld); if (rc >= 0) *fd = 1; return rc; }
+        if (m == 3) {
+#ifdef HAVE_IDNKIT
+            idn_result_t ir = 0; rc = CALL_U8DOM (&ir, d, end, tld); *idn = (int) ir;
+#else
+            rc = CALL_U8DOM (idn, d, end, tld);
+#endif
+            if (rc >= 0) *fd = 1; return rc; }
         rc = is_ascii_domain (d, end);
         if (rc != 0) return rc;
         *fd = 1;
@@ -167,8 +192,8 @@ static void print_msg (eav_t *e)
     if (m == NULL) { fputs ("N", stdout); return; }
     if (*m == 0) { fputs ("EMPTY", stdout); return; }
     if (e->errcode == EEAV_IDN_ERROR) {
-        int code = e->result ? e->result->idn_rc : 0;
-        if (strcmp (m, idn2_strerror (code)) == 0) printf ("I%d", code);
+        int code = e->result ? (int) e->result->idn_rc : 0;
+        if (strcmp (m, BACKEND_STRERROR (code)) == 0) printf ("I%d", code);
         else { fputs ("?", stdout); puthex (m); }
         return;
     }
@@ -187,6 +212,9 @@ static void run_history (char **tok, int ntok)
     eav_t *e = __real_malloc (sizeof *e);
     memset (e, 0xA5, sizeof *e);
     long base = n_alloc - n_free;
+#ifdef HAVE_IDNKIT
+    long kit_base[4] = { verif_kit_created, verif_kit_destroyed, verif_kit_bad_destroy, verif_kit_use_after_destroy };
+#endif
     for (int i = 0; i < ntok; i++) {
         const char *t = tok[i];
         if (i) putchar (' ');
@@ -207,7 +235,7 @@ static void run_history (char **tok, int ntok)
             o_expect = at ? at + 1 : NULL; idn_calls = 0; idn_argok = 1;
             int ret = eav_is_email (e, a_buf, n);
             printf ("R%d:%d:%ld:%d,%d,%d%d%d,%d,%d", ret, e->errcode, n_alloc - n_free - base,
-                    e->result->rc, e->result->idn_rc, e->result->is_ipv4, e->result->is_ipv6,
+                    e->result->rc, (int) e->result->idn_rc, e->result->is_ipv4, e->result->is_ipv6,
                     e->result->is_domain, idn_calls, idn_argok);
             continue;
         }
@@ -215,6 +243,9 @@ static void run_history (char **tok, int ntok)
         }
         printf (":%d:%ld", e->errcode, n_alloc - n_free - base);
     }
+#ifdef HAVE_IDNKIT
+    printf (" K%ld,%ld,%ld,%ld", verif_kit_created - kit_base[0], verif_kit_destroyed - kit_base[1], verif_kit_bad_destroy - kit_base[2], verif_kit_use_after_destroy - kit_base[3]);
+#endif
     putchar ('\n');
     __real_free (e);
 }
@@ -235,6 +266,9 @@ int main (void)
     signal (SIGSEGV, on_crash); signal (SIGABRT, on_crash); signal (SIGBUS, on_crash);
     signal (SIGFPE, on_crash); signal (SIGILL, on_crash);
     if (getenv ("DRV_LINEBUF")) setvbuf (stdout, NULL, _IOLBF, 0);
+#ifdef HAVE_IDNKIT
+    idn_resconf_create (&g_ctx);
+#endif
     load_messages ();
     while (fgets (line, sizeof line, stdin)) {
         int nf = 0;
@@ -264,10 +298,14 @@ int main (void)
             idn_calls = 0; idn_argok = 1;
             long base = n_alloc - n_free;
             if (k == 'U') {
+#ifdef HAVE_IDNKIT
+                idn_result_t ir = 0;
+#else
                 int ir = 0;
+#endif
                 o_expect = a_buf;
-                int rc = is_utf8_domain (&ir, a_buf, a_buf + n, tld);
-                printf ("%d %d %d %d %ld\n", rc, ir, idn_calls, idn_argok, n_alloc - n_free - base);
+                int rc = CALL_U8DOM (&ir, a_buf, a_buf + n, tld);
+                printf ("%d %d %d %d %ld\n", rc, (int) ir, idn_calls, idn_argok, n_alloc - n_free - base);
             } else if (k == 'K') {
                 int f4, f6, fd, ir;
                 const char *at = strrchr (a_buf, '@');
